@@ -4,6 +4,7 @@ import (
 	"encoding/binary"
 	"fmt"
 	"github.com/sirupsen/logrus"
+	"hash/crc32"
 	"io"
 	"strings"
 	"time"
@@ -126,7 +127,10 @@ func init() {
 					name string
 					v    uint32
 				}{{"byte-reversed", swap}, {"complement", ^good}, {"zero", 0}, {"ones", 0xffffffff}, {"rot8", good<<8 | good>>24}, {"rot16", good<<16 | good>>16},
-					{"bit-reversed", rev8(good)}, {"halves-swapped-bytes", (good&0x00ff00ff)<<8 | (good&0xff00ff00)>>8}, {"plus-one", good + 1}} {
+					{"bit-reversed", rev8(good)}, {"halves-swapped-bytes", (good&0x00ff00ff)<<8 | (good&0xff00ff00)>>8}, {"plus-one", good + 1},
+					{"crc-of-data-only", crc32.ChecksumIEEE(base[18 : 18+l])}, {"crc-of-header-only", crc32.ChecksumIEEE(base[:18])}, {"crc-without-magic", crc32.ChecksumIEEE(base[2 : 18+l])},
+					{"crc-without-control", crc32.ChecksumIEEE(base[4 : 18+l])}, {"crc-including-padding", crc32.ChecksumIEEE(base)}, {"crc-castagnoli", crc32.Checksum(base[:18+l], crc32.MakeTable(crc32.Castagnoli))},
+					{"crc-init-zero", crc32.Update(0xffffffff, crc32.IEEETable, base[:18+l])}} {
 					name, v := nv.name, nv.v
 					if v == good {
 						continue
